@@ -310,6 +310,22 @@ def source_hashes(files=None):
 
 # ---------------------------------------------------------------------------
 
+def _escaped(e):
+    """An exception that reaches the harness natively from inside the code under test (innermost frame in the repository
+    source) is an outcome the harness does not allow for: every harness catches the exceptions its property permits.
+    It is reported as a violation (it replays by construction), not as an engine error."""
+    tb = traceback.extract_tb(e.__traceback__)
+    if not tb:
+        return None
+    last = tb[-1]
+    if not last.filename.startswith(REPO_SRC):
+        return None
+    rel = os.path.relpath(last.filename, REPO_SRC)
+    return Violation("the code under test raised %s (%s) in %s:%s, which the property does not allow here"
+                     % (type(e).__name__, str(e)[:120], rel, last.name),
+                     key="escaped-exception:%s:%s:%s" % (type(e).__name__, rel, last.name))
+
+
 def _make_args(types, space, sig, gen_args):
     """Symbolic arguments.  int/bool are created directly as plain solver variables: CrossHair's own int
     factory adds a 'premature realisation' ParallelNode whose probability grows with every UNKNOWN leaf,
@@ -466,7 +482,11 @@ def explore(fn, types, *, budget_s=60.0, per_path_s=10.0, stubs=None,
                 except AssumeFailed:
                     nres = ("assume", None)
                 except Exception as e:
-                    nres = ("exc", (type(e).__name__, str(e)[:300], traceback.format_exc(limit=-6)))
+                    esc = _escaped(e)
+                    if esc is not None:
+                        nres = ("viol", esc)
+                    else:
+                        nres = ("exc", (type(e).__name__, str(e)[:300], traceback.format_exc(limit=-6)))
             else:
                 nres = (kind, payload)
             if nres[0] == "viol":
@@ -641,4 +661,6 @@ def replay_cell_violation(rec):
         fn(Ctx(False), **dec(rec["args"]))
     except Violation as v:
         return v
+    except Exception as e:
+        return _escaped(e)
     return None
